@@ -47,8 +47,39 @@ pub fn worker_main() {
     println!("{v}");
 }
 
+pub const TABLE_CAP: isize = 65536;
+
+/// Does the text ask for a vftable with more than TABLE_CAP slots (an #[index] on a virtual function or a
+/// #[size] on a vftable block)? The property allows cost proportional to the tables an input asks for, so
+/// such inputs are outside the domain (counted as discarded).
+pub fn asks_for_huge_table(text: &str) -> bool {
+    use pyxis::grammar as g;
+    let Ok(Ok(m)) = catch(|| pyxis::parser::parse_str(text)) else { return false };
+    let big = |attrs: &g::Attributes, name: &str| {
+        attrs.0.iter().any(|a| match a {
+            g::Attribute::Function(n, es) if n.as_str() == name => es.iter().any(|e| matches!(e, g::Expr::IntLiteral(v) if *v > TABLE_CAP)),
+            _ => false,
+        })
+    };
+    for d in &m.definitions {
+        if let g::ItemDefinitionInner::Type(t) = &d.inner {
+            for st in &t.statements {
+                if let g::TypeField::Vftable(funcs) = &st.field {
+                    if big(&st.attributes, "size") || funcs.iter().any(|f| big(&f.attributes, "index")) {
+                        return true;
+                    }
+                }
+            }
+        }
+    }
+    false
+}
+
 /// The API sequences a user can drive: parse + add_module + build + write, and pyxis::build on disk.
 pub fn run_case_in_process(c: &Case) -> Value {
+    if c.files.iter().any(|(_, t)| asks_for_huge_table(t)) {
+        return json!({"status": "skipped-huge-table"});
+    }
     let mut parsed = 0;
     for (_, text) in &c.files {
         match catch(|| pyxis::parser::parse_str(text).is_ok()) {
@@ -125,6 +156,7 @@ pub fn judge_case(c: &Case) -> Outcome {
     }
     match v["status"].as_str().unwrap_or("") {
         "machinery" | "bad-input" => Outcome::discard("machinery"),
+        "skipped-huge-table" => Outcome::discard("asks for a vftable of more than 65536 slots (cost proportional to the request is allowed)"),
         "panic" => {
             let msg = v["msg"].as_str().unwrap_or("").to_string();
             Outcome::fail(&format!("panic:{}", panic_signature(&msg)), format!("stage {}: {msg}", v["stage"]))
